@@ -340,7 +340,7 @@ func TIFFShape(r *core.Rng) ([]byte, string) {
 		for i := 0; i < n; i++ {
 			tg := tagsByDir[kind][r.Intn(len(tagsByDir[kind]))]
 			ty := r.Pick(1, 2, 2, 3, 3, 4, 4, 5, 5, 7, 10, 13, 0)
-			cnt := uint32(r.Pick(0, 1, 1, 2, 3, 4, 5, 6, 8, 11, 20, 0x7fffffff, 0xffffffff))
+			cnt := uint32(r.Pick(0, 1, 1, 2, 3, 4, 5, 6, 8, 11, 20, 0x7fffffff, 0xffffffff, 0x40000001, 0x40000002, 0x40000003, 0x80000001, 0x80000002, 0x20000001, 0x20000002))
 			e := out[entries+12*i:]
 			copy(e, u16(tg))
 			copy(e[2:], u16(ty))
